@@ -255,6 +255,18 @@ proof fn lemma_child_range<Pk: MiniscriptKey>(p: Concrete<Pk>, lo: int, hi: int)
 CFG = sub("R1-cfg-feature-compiler", r'#\[cfg\(feature = "compiler"\)\]\s*', "", required=False)
 
 
+def sub_as_f64_ext():
+    """R7: `(EXPR) as f64` / `xs[i].0 as f64` / `0 as f64` -> usize_as_f64(..) (the operand shapes of compiler.rs)."""
+    return sub("R7-usize-as-f64(ext)", r"(\([^()]*\)|\*?\b[\w.\[\]]+(?:\(\))?) as f64", r"usize_as_f64(\1)", required=False)
+
+
+def pick_f64():
+    """The opaque float type and its operations (text of ORACLE_A, for reuse by unit c08_compiler_nodes)."""
+    a = ORACLE_A.index("// ---- f64: probabilities only order the leaves")
+    b = ORACLE_A.index("// R14: `subs.iter().map(|prob_sub| prob_sub.0).sum::<usize>()`")
+    return ORACLE_A[a:b]
+
+
 def C(tag, text, props=("C08",)):
     return Clause(tag, props, text)
 
@@ -666,7 +678,7 @@ def combine_chain_loop(text):
         return ("let cmb_%(w)s = %(src)s.depths_leaves.as_slice();\n        let mut cmb_i: usize = 0;\n        while cmb_i < cmb_%(w)s.len()\n"
                 "            invariant\n                cmb_i <= cmb_%(w)s@.len(), cmb_%(w)s@ == %(src)s.depths_leaves@,\n"
                 "                depths_leaves@.len() == %(base)s + cmb_i,\n%(done)s"
-                "                forall|q: int| 0 <= q < cmb_i ==> (#[trigger] %(src)s.depths_leaves@[q]).0 <= 127,\n"
+                "                forall|q: int| 0 <= q < cmb_i ==> (#[trigger] %(src)s.depths_leaves@[q]).0 <= 127, //@inv no_leaf_is_pushed_below_depth_128 [C08]\n"
                 "                forall|q: int| 0 <= q < cmb_i ==> #[trigger] depths_leaves@[%(idx)s] == ((%(src)s.depths_leaves@[q].0 + 1) as u8, %(src)s.depths_leaves@[q].1),\n"
                 "            decreases cmb_%(w)s@.len() - cmb_i\n        {\n            let (depth, leaf) = &cmb_%(w)s[cmb_i];\n"
                 "            %(body)s\n            cmb_i += 1;\n        }\n") % dict(w=which, src=src, base=base, done=done, body=body.strip(), idx=("q" if base == "0" else base + " + q"))
@@ -1300,6 +1312,7 @@ def build(repo):
                     "&& (forall|i: int| 0 <= i < left.depths_leaves@.len() ==> (#[trigger] r->Ok_0.depths_leaves@[i]).0 == left.depths_leaves@[i].0 + 1) "
                     "&& (forall|i: int| 0 <= i < right.depths_leaves@.len() ==> (#[trigger] r->Ok_0.depths_leaves@[left.depths_leaves@.len() + i]).0 == right.depths_leaves@[i].0 + 1)"),
               ]))
+    register_named_invariants(vf, "TapTree::combine")
     vf.fn(CONC, "fn:with_huffman_tree", props=PROPS, rewrites=huffman_rewrites(True),
           contract=Contract(requires=["ms@.len() > 0"], ensures=[
               C("leaves_are_exactly_the_input_leaves", "tree_ms(r) =~= input_ms(ms@)"),
